@@ -32,6 +32,10 @@ theorem oversize_refused_in_every_state (st : ExpState) (time : Nat) (s : SetB)
   unfold ExpState.wroteW
   rw [h1]
 
+/-- non-vacuity: a template set of reported length 65520 (message 65536 bytes) meets the hypothesis, one of 65519 does not -/
+example : Generated.cMsgHeaderLength + ({ length := 65520 } : SetB).updateLen.length > Generated.cMaxSocketMsgSize ∧
+    ¬ (Generated.cMsgHeaderLength + ({ length := 65519 } : SetB).updateLen.length > Generated.cMaxSocketMsgSize) := by decide
+
 /-- a refused send transmits nothing (`SendResult.err` carries no bytes: the size and sanity checks
     precede the only `Write`) and leaves the exporter's template table and domain untouched, so
     every later send behaves as if the refused one had not happened - except for the counter,
